@@ -284,3 +284,28 @@ PROPERTIES["C17"] = {
                "(Http2FingerprintExtractor: 64 KiB buffer + all of the above) and hence chunk-independence (seed C17-2 is missed by design)",
     "assumptions": ["E1 tracing stub"],
 }
+
+# ------------------------------------------------------------------------------------------ C09
+_c09 = []
+for side, orders in [("cli", ["012", "021", "102", "120", "201", "210"]), ("srv", ["012", "210", "120"])]:
+    for o in orders:
+        _c09.append(H(f"c09::c09_{side}_{o}_nowrap", "quick" if o in ("012", "210", "120") else "thorough",
+                      f"{side}: 3 contiguous segments (2+1+2 symbolic bytes) pushed in arrival order {o}; ISN symbolic over all values whose stream does not wrap",
+                      "assembled stream == the 5 bytes in stream order"))
+for side, orders in [("cli", ["012", "210", "102"]), ("srv", ["012", "201"])]:
+    for o in orders:
+        _c09.append(H(f"c09::c09_{side}_{o}_wrap", "quick", f"{side}: same, ISN such that the sequence space wraps inside the 5 bytes", "assembled stream == the 5 bytes in stream order"))
+_c09 += [H("c09::c09_gap_cli", "quick", "client: first and third segment present, middle missing, ISN symbolic (known finding D8a)", "assembled length <= 2"),
+         H("c09::c09_gap_srv", "quick", "server: same (known finding D8a)", "assembled length <= 2"),
+         H("c09::c09_retransmission_cli", "quick", "client: first segment pushed twice (known finding D8b)", "assembled length == 4")]
+PROPERTIES["C09"] = {
+    "harnesses": _c09,
+    "explanation": "Bounded model checking of the reassembly kernel of the HTTP analyzer (TcpFlow segment store + get_full_data, driven through verif hooks that "
+                   "store segments exactly as process_tcp_packet does): for every initial sequence number, three contiguous segments with symbolic bytes in "
+                   "every arrival order assemble to the stream-order concatenation; gap and retransmission cases.",
+    "functions": ["http_process::TcpFlow::{init, get_full_data} via verif_new/verif_push/verif_full_data"],
+    "bounds": "3 segments of 2+1+2 bytes; all 2^32 ISNs; all 6 client / 3 server arrival orders",
+    "outside": "process_tcp_packet itself (parse after each segment, 'reported at most once', direction attribution, flow removal) needs HttpProcessors (HashMap, HPACK): not encodable; "
+               "longer streams and more segments",
+    "assumptions": ["E1 tracing stub", "hooks store a segment the way process_tcp_packet does (push of TcpData{sequence, payload})"],
+}
